@@ -293,13 +293,15 @@ def rule_r2(repo):
             if e[0] == 'tables':
                 names.append('tables@%d' % e[1])
             elif e[0] in ('invalidate', 'add_extra_entries'):
-                names.append(e[0] + ('(%s)' % ','.join(e[1]) if e[0] == 'add_extra_entries' else ''))
+                # (invalidate with an argument is a partial invalidation: groups built without the new entries would stay cached)
+                names.append(e[0] + ('(%s)' % ','.join(e[1]) if (e[0] == 'add_extra_entries' or e[1]) else ''))
             elif e[0] == 'yield':
                 names.append('yield@%d' % e[1].fields['__start'])
         want_sub = ['tables@250', 'invalidate', 'add_extra_entries(B_ENTRIES,D_ENTRIES)', 'yield@250']
         joined = ' '.join(names)
         if not r.ok or ' '.join(want_sub) not in joined:
-            rr.fail('generate_bufr_message:registration', gen.where, 'event order is [%s]; expected ... %s ...' % (joined, ' '.join(want_sub)))
+            rr.fail('generate_bufr_message:registration', gen.where, 'event order is [%s]; expected ... %s ... (every cached table group is dropped: each was built '
+                    'without the entries just defined)' % (joined, ' '.join(want_sub)))
     rr.require_floor(7)
     return rr
 
